@@ -36,7 +36,7 @@ func (h UrlEncodedForm) Supports(r *http.Request) bool {
 
 func (h UrlEncodedForm) Do(w http.ResponseWriter, r *http.Request, exec graphql.GraphExecutor) {
 	ctx := r.Context()
-	writeHeaders(w, h.ResponseHeaders)
+	contentType := writeNegotiatedHeaders(w, h.ResponseHeaders, r)
 	params := &graphql.RawParams{}
 	start := graphql.Now()
 	params.Headers = r.Header
@@ -65,7 +65,7 @@ func (h UrlEncodedForm) Do(w http.ResponseWriter, r *http.Request, exec graphql.
 
 	rc, opErr := exec.CreateOperationContext(ctx, params)
 	if opErr != nil {
-		w.WriteHeader(statusFor(opErr))
+		w.WriteHeader(statusForContentType(contentType, opErr))
 		resp := exec.DispatchError(graphql.WithOperationContext(ctx, rc), opErr)
 		writeJson(w, resp)
 		return
